@@ -484,8 +484,10 @@ pub fn code_nth(push_state: &mut PushState, _instruction_cache: &InstructionCach
             }
             match code {
                 Item::List { items } => {
-                    if let Some(nth_item) = items.get(idx as usize - 1) {
-                        item_to_push = nth_item.clone();
+                    if idx > 0 {
+                        if let Some(nth_item) = items.get(idx as usize - 1) {
+                            item_to_push = nth_item.clone();
+                        }
                     }
                 }
                 _ => (),
